@@ -32,9 +32,14 @@ type c11TcEv struct {
 type c11TcRecorder struct {
 	next int
 	evs  []c11TcEv
+	mids [][]c11TcEnt
 }
 
-var c11TcRec *c11TcRecorder
+var (
+	c11TcRec    *c11TcRecorder
+	c11TcCur    *TrafficController
+	c11TcMidOff bool
+)
 
 type c11TcSpec struct {
 	Tag int `yaml:"tag" jsonschema:"omitempty"`
@@ -50,6 +55,11 @@ type c11TcObj struct {
 func (o *c11TcObj) ev(e string, from int) {
 	if c11TcRec != nil {
 		c11TcRec.evs = append(c11TcRec.evs, c11TcEv{Ev: e, Cat: o.cat, ID: o.id, Name: o.name, Tag: o.tag, From: from})
+		if e != "handle" && c11TcCur != nil && !c11TcMidOff {
+			// we are INSIDE the operation (Init / Inherit / Close callback, tc.mutex held by this very
+			// goroutine): what would a request see right now? Namespace.GetHandler is lock-free.
+			c11TcRec.mids = append(c11TcRec.mids, c11TcSnapNoLock(c11TcCur))
+		}
 	}
 }
 
@@ -127,12 +137,13 @@ type c11TcEnt struct {
 }
 
 type c11TcStep struct {
-	Err    bool       `json:"err"`
-	Panic  bool       `json:"panic"`
-	Ret    int        `json:"ret"` // instance id of the returned entity / handler (0 none)
-	Events []c11TcEv  `json:"events"`
-	Snap   []c11TcEnt `json:"snap"` // every live entity afterwards, sorted
-	Spaces []string   `json:"spaces"`
+	Err    bool         `json:"err"`
+	Panic  bool         `json:"panic"`
+	Ret    int          `json:"ret"` // instance id of the returned entity / handler (0 none)
+	Events []c11TcEv    `json:"events"`
+	Snap   []c11TcEnt   `json:"snap"` // every live entity afterwards, sorted
+	Mid    [][]c11TcEnt `json:"mid"`  // the live entities as seen from inside each Init/Inherit/Close callback of this op
+	Spaces []string     `json:"spaces"`
 }
 
 type c11TcObs struct {
@@ -179,6 +190,36 @@ func c11TcSnap(tc *TrafficController) (ents []c11TcEnt, spaces []string) {
 	return
 }
 
+// lock-free view of the namespace maps (what Namespace.GetHandler / the sync.Maps hold right now);
+// only called from the goroutine that holds tc.mutex
+func c11TcSnapNoLock(tc *TrafficController) []c11TcEnt {
+	ents := []c11TcEnt{}
+	for ns, space := range tc.namespaces {
+		space.trafficGates.Range(func(k, v interface{}) bool {
+			ents = append(ents, c11TcEnt{NS: ns, Cat: "G", Name: k.(string), ID: c11TcID(v.(*supervisor.ObjectEntity))})
+			return true
+		})
+		space.pipelines.Range(func(k, v interface{}) bool {
+			ents = append(ents, c11TcEnt{NS: ns, Cat: "P", Name: k.(string), ID: c11TcID(v.(*supervisor.ObjectEntity))})
+			if h, ok := space.GetHandler(k.(string)); !ok || h == nil {
+				ents[len(ents)-1].ID = -2 // GetHandler disagrees with the map
+			}
+			return true
+		})
+	}
+	sort.Slice(ents, func(i, j int) bool {
+		a, b := ents[i], ents[j]
+		if a.NS != b.NS {
+			return a.NS < b.NS
+		}
+		if a.Cat != b.Cat {
+			return a.Cat < b.Cat
+		}
+		return a.Name < b.Name
+	})
+	return ents
+}
+
 func c11TcSortCloses(evs []c11TcEv) []c11TcEv {
 	out := append([]c11TcEv{}, evs...)
 	i := 0
@@ -208,9 +249,12 @@ func c11TcRun(in c11TcIn) (obs c11TcObs) {
 	}
 	tc := &TrafficController{}
 	tc.Init(ss)
+	c11TcCur = tc
+	defer func() { c11TcCur = nil }()
 	for _, op := range in.Ops {
 		st := c11TcStep{}
-		c11TcRec.evs = nil
+		c11TcRec.evs, c11TcRec.mids = nil, nil
+		c11TcMidOff = op.Op == "clean" // Clean closes in map order while deleting: no canonical intermediate view
 		kind := "C11RecPipeline"
 		if op.Cat == "G" {
 			kind = "C11RecGate"
@@ -282,6 +326,10 @@ func c11TcRun(in c11TcIn) (obs c11TcObs) {
 		if st.Events == nil {
 			st.Events = []c11TcEv{}
 		}
+		st.Mid = c11TcRec.mids
+		if st.Mid == nil {
+			st.Mid = [][]c11TcEnt{}
+		}
 		st.Snap, st.Spaces = c11TcSnap(tc)
 		obs.Steps = append(obs.Steps, st)
 	}
@@ -305,7 +353,7 @@ func c11TcGen(r *vfRand, adv bool) c11TcIn {
 			if t, ok := last[k]; ok && (r.Chance(1, 2) || adv) {
 				op.Tag = t // unchanged spec
 			}
-		case x < 11:
+		case x < 10:
 			op.Op = "create"
 		case x < 13:
 			op.Op = "update"
